@@ -130,12 +130,11 @@ def finish(col: Collector, tier: str, t0: float, explanation: str, level_rule: s
 
     replay_dir = EVIDENCE_DIR / "replay"
     lines: list[str] = []
-    if new_findings and write_evidence:
+    if new_findings:
         replay_dir.mkdir(parents=True, exist_ok=True)
     for i, f in enumerate(new_findings):
         rp = replay_dir / f"{pid}-{i}.json"
-        if write_evidence:
-            rp.write_text(json.dumps({"property": pid, **f.as_dict()}, indent=1))
+        rp.write_text(json.dumps({"property": pid, **f.as_dict()}, indent=1))
         lines.append(f"VIOLATION property={pid} replay={rp} rule={f.rule} at {f.where} in {f.func}: {f.message}")
     reported = set()
     for f in seen_known:
